@@ -1,6 +1,7 @@
 package props
 
 import (
+	"reflect"
 	"bytes"
 	"crypto/sha256"
 	"fmt"
@@ -226,7 +227,7 @@ func c17Scenarios(nops int, triples bool) []c17Scenario {
 
 func c17RunScenario(r *evid.Run, st *Stats, ops []c17Op, sc c17Scenario, bound int, dl time.Time, agg *sched.Stats) {
 	// every execution starts from the package-level state the process had at start-up:
-	// lazily built package-level caches are cold again (c17Worker took the snapshot)
+	// lazily built package-level caches are cold again (snapshot taken right after package initialisation)
 	restoreGlobals()
 	// sequential baseline of each operation, computed on fixtures of its own: the shared fixtures must be
 	// untouched (first use) when the threads start
@@ -246,6 +247,13 @@ func c17RunScenario(r *evid.Run, st *Stats, ops []c17Op, sc c17Scenario, bound i
 	results := make([]string, len(sc.ops))
 	mk := func() []func() {
 		restoreGlobals()
+		if os.Getenv("C17DEBUG") != "" {
+			for n, p := range globalPointers() {
+				if strings.Contains(n, os.Getenv("C17DEBUG")) {
+					fmt.Fprintf(os.Stderr, "C17DEBUG %s = %v\n", n, reflect.ValueOf(p).Elem().Len())
+				}
+			}
+		}
 		ths := make([]func(), len(sc.ops))
 		for i, oi := range sc.ops {
 			i, oi := i, oi
@@ -364,7 +372,8 @@ func c17Worker(r *evid.Run, w, n int) {
 			}
 		}
 	}()
-	snapshotGlobals()
+	// (the snapshot restoreGlobals goes back to was taken by the generated init() of the instrumented packages: by the time
+	// this worker runs, package-level initialisers of the harness may already have used the library)
 	st := NewStats()
 	ops := c17Ops()
 	th := thorough(r)
